@@ -23,12 +23,14 @@ G3 = [['a', 'b']]
 G4 = [['a'], ['b'], ['c', 'd']]
 INTERNAL = [None, {'P': G1}, {'P': G2}, {'P': G3}, {'E': G1}, {'[PE]': G2}, {'PE': G1}, {'(?<=P)E': G2}, {'K': G4},
             {'P': G1, 'E': G2}, {'P': G2, 'K': G1}, {'P': G1, 'E': G1, 'K': G1}, {'K': 'a'}, {'K': ['a', 'b']},
-            {'P': G1, '[PE]': [['c'], ['d']]}, {'PE': [['c']], 'P': G2}]
+            {'P': G1, '[PE]': [['c'], ['d']]}, {'PE': [['c']], 'P': G2},
+            {'.': G1}, {'.K': G2}]   # one-character and two-character patterns that are regexes, not residues
 OVERLAPPING = {14, 15}
-TERM = [None, 'n1', [['n1'], ['n2']], {'': 'n1'}, {'P': [['n1']]}, {'K': 'n1', 'E': [['n2']]}]
+QUICK_SKIP_AT_3 = {0, 3, 4, 8, 10, 11, 12, 13}   # rule sets explored on strings of length <= 2 only in the quick tier
+TERM = [None, 'n1', [['n1'], ['n2']], {'': 'n1'}, {'P': [['n1']]}, {'K': 'n1', 'E': [['n2']]}, {'.': 'n1'}]
 # the static builder takes one list of mods per target (no alternative groups): the first group of each rule
-TERM_PAIRS = [(a, 0) for a in range(6)] + [(0, b) for b in range(1, 6)] + [(a, b) for a in (1, 2, 4) for b in (1, 2, 4)]
-TERM_PAIRS_QUICK = [(a, 0) for a in range(6)] + [(0, b) for b in range(1, 6)] + [(1, 1), (2, 2), (4, 4), (1, 4), (4, 2)]
+TERM_PAIRS = [(a, 0) for a in range(7)] + [(0, b) for b in range(1, 7)] + [(a, b) for a in (1, 2, 4) for b in (1, 2, 4)]
+TERM_PAIRS_QUICK = [(a, 0) for a in range(7)] + [(0, b) for b in range(1, 7)] + [(1, 1), (2, 2), (4, 4), (1, 4), (4, 2)]
 
 
 def static_internal(ir):
@@ -62,6 +64,8 @@ def shards(tier):
     for n in range(1, d['L'] + 1):
         for t in itertools.product(ALPHA, repeat=n):
             for ir in range(len(INTERNAL)):
+                if tier != 'thorough' and n >= 3 and ir in QUICK_SKIP_AT_3:
+                    continue
                 out.append({'seq': ''.join(t), 'ir': ir})
     return out
 
